@@ -1,6 +1,24 @@
 package main
 
-import "fmt"
+import (
+	"fmt"
+	"math"
+)
+
+// bigRows: a long table (sizes chosen to cross 64 / 256 / 512 / 1024 / 4096 and not to be multiples of them)
+func bigRows(n int) []any {
+	rows := make([]any, n)
+	for i := range rows {
+		m := map[string]any{"id": float64(i + 1), "n1": float64(i % 7), "n2": float64((i * 37) % 11), "s1": []string{"a", "b", "ab", ""}[i%4]}
+		if i%5 != 0 {
+			m["k"] = float64((i * 13) % 97)
+		} else if i%10 == 0 {
+			m["k"] = nil
+		}
+		rows[i] = m
+	}
+	return rows
+}
 
 // ---------- C02: projection ----------
 
@@ -139,8 +157,44 @@ func genC02(r *Rand, tier string) []Case {
 			tags = append(tags, "from:dual")
 			nontrivial = true
 		}
+		if q.From.K == "table" && r.Chance(10) {
+			// the table under an alias — also one spelled like the table itself — with alias-qualified references
+			alias := Pick(r, []string{"x", "t", "T", "t"})
+			ok := true
+			for _, it := range q.Items {
+				if it.Star || it.E == nil {
+					ok = false
+				}
+			}
+			if ok {
+				q.From.Alias = alias
+				for i := range q.Items {
+					if q.Items[i].Alias == "" {
+						q.Items[i].Alias = q.Items[i].name()
+					}
+					q.Items[i].E = qualifyCols(q.Items[i].E, alias)
+				}
+				q.Where = qualifyCols(q.Where, alias)
+				tags = append(tags, "from:aliased", "alias:"+alias)
+			}
+		}
 		tags = append(tags, fmt.Sprintf("items:%d", len(items)))
+		if r.Chance(12) && respell(r, q) {
+			tags = append(tags, "literals:respelt")
+		}
 		out = append(out, mkCase(doc, q, tags, nontrivial))
+	}
+	// long tables: one output row per kept row, each computed from its own row, whatever the length
+	sizes := []int{300, 4099}
+	if tier == "thorough" {
+		sizes = []int{65, 257, 300, 1025, 4099, 5003}
+	}
+	for _, n := range sizes {
+		q := &Stmt{From: &From{K: "table", Path: []string{"big"}}, Items: []Item{{E: Col("id")}, {E: Bin("+", Bin("*", Col("n1"), Num(2)), Col("n2")), Alias: "v"}, {E: Col("s1"), Alias: "s"}}}
+		if n < 1000 {
+			q.Where = Cmp("!=", Col("n2"), Num(3))
+		}
+		out = append(out, mkCase(map[string]any{"big": bigRows(n)}, q, []string{"long-table", fmt.Sprintf("rows:%d", n)}, true))
 	}
 	return out
 }
@@ -172,6 +226,8 @@ func genAggItem(r *Rand, tags *[]string, alias string) Item {
 func genGroupTable(r *Rand, maxRows int) table {
 	t := genTable(r, maxRows)
 	gk := []any{"x", "y", "z", float64(1), float64(2), nil}
+	// 0 and -0 are one number: rows carrying either belong to one group
+	zeros := r.Chance(15)
 	// values of different kinds whose %v texts coincide must still form different groups
 	mixed := [][]any{{float64(1), "1"}, {nil, "<nil>"}, {true, "true"}, {float64(1), "1", true, "true", nil, "<nil>"}}[r.Intn(4)]
 	useMixed := r.Chance(20)
@@ -190,6 +246,9 @@ func genGroupTable(r *Rand, maxRows int) table {
 		case 1: // missing
 		default:
 			m["g2"] = Pick(r, gk[3:5])
+			if zeros {
+				m["g2"] = Pick(r, []any{float64(0), math.Copysign(0, -1), float64(1)})
+			}
 		}
 	}
 	return t
@@ -278,6 +337,9 @@ func genC03(r *Rand, tier string) []Case {
 		if len(q.Items) == 0 {
 			q.Items = append(q.Items, genAggItem(r, &tags, "a0"))
 		}
+		if r.Chance(10) && respell(r, q) {
+			tags = append(tags, "literals:respelt")
+		}
 		c := mkCase(doc, q, tags, len(t.rows) >= 2)
 		in := c.Input.(engIn)
 		in.Repeat = 6
@@ -286,6 +348,24 @@ func genC03(r *Rand, tier string) []Case {
 		}
 		c.Input = in
 		out = append(out, c)
+	}
+	// long member lists: an aggregate covers every member of its group, however many there are, and NULL members are
+	// ignored wherever they sit (whole aligned blocks of them included)
+	for _, n := range []int{300, 700} {
+		rows := bigRows(n)
+		for i, row := range rows {
+			m := row.(map[string]any)
+			m["amount"] = float64(i%9 + 1)
+			if i < 256 || (i >= 512 && i < 600) {
+				m["amount"] = nil
+			}
+			m["g"] = []string{"one", "one", "one", "two"}[i%4]
+		}
+		doc := map[string]any{"t": rows}
+		items := []Item{{E: &Expr{K: "agg", Name: "sum", Path: []string{"amount"}}, Alias: "s"}, {E: &Expr{K: "agg", Name: "count", Star: true}, Alias: "c"},
+			{E: &Expr{K: "agg", Name: "max", Path: []string{"amount"}}, Alias: "mx"}, {E: &Expr{K: "agg", Name: "min", Path: []string{"n1"}}, Alias: "mn"}, {E: &Expr{K: "agg", Name: "sum", Path: []string{"n2"}}, Alias: "s2"}}
+		out = append(out, mkCase(doc, &Stmt{From: &From{K: "table", Path: []string{"t"}}, Items: items}, []string{"long-table", "whole-table", fmt.Sprintf("rows:%d", n)}, true))
+		out = append(out, mkCase(doc, &Stmt{From: &From{K: "table", Path: []string{"t"}}, Group: []string{"g"}, Items: append([]Item{{E: Col("g")}}, items...)}, []string{"long-table", "grouped", fmt.Sprintf("rows:%d", n)}, true))
 	}
 	return out
 }
@@ -417,7 +497,21 @@ func genC05(r *Rand, tier string) []Case {
 			out[len(out)-1] = c
 			continue
 		}
+		if r.Chance(15) && respell(r, q) {
+			tags = append(tags, "literals:respelt")
+		}
 		add(t, q, tags)
+	}
+	// long tables (crossing 512): both directions, NULL / missing keys; windows at the front and in the middle of the
+	// rows with a key (rows whose first key is NULL come last in no particular order: a window must not cut into them)
+	for _, n := range []int{513, 700} {
+		for _, asc := range []bool{true, false} {
+			for _, win := range [][2]int{{5, 0}, {7, 300}} {
+				q := &Stmt{From: &From{K: "table", Path: []string{"t"}}, Items: []Item{{E: Col("id")}, {E: Col("k")}}, Order: []OrderKey{{Path: []string{"k"}, Asc: asc}, {Path: []string{"id"}, Asc: true}},
+					Limit: intp(win[0]), Offset: intp(win[1])}
+				out = append(out, mkCase(map[string]any{"t": bigRows(n)}, q, []string{"long-table", fmt.Sprintf("rows:%d", n), fmt.Sprintf("asc:%v", asc)}, true))
+			}
+		}
 	}
 	return out
 }
@@ -499,6 +593,9 @@ func genC06(r *Rand, tier string) []Case {
 			tags = append(tags, fmt.Sprintf("branches:%d", k))
 			if r.Chance(30) {
 				q.Limit = intp(r.Intn(6))
+				if r.Chance(30) {
+					q.Limit = intp(8 + r.Intn(5)) // two-digit and >= 8: a zero-padded spelling must still mean this number
+				}
 				if r.Bool() {
 					q.Offset = intp(r.Intn(4))
 				}
@@ -516,6 +613,9 @@ func genC06(r *Rand, tier string) []Case {
 			read := func() *Stmt { return &Stmt{From: &From{K: "table", Path: []string{"cw"}}, Items: []Item{{Star: true}}} }
 			q = &Stmt{Union: true, All: true, With: []CTE{{Name: "cw", Q: body}}, L: read(), R: read()}
 			tags = []string{"union-body-built-twice"}
+		}
+		if r.Chance(12) && respell(r, q) {
+			tags = append(tags, "literals:respelt")
 		}
 		out = append(out, mkCase(doc, q, tags, true))
 	}
